@@ -19,6 +19,9 @@ use std::sync::atomic::{AtomicBool, AtomicU64, Ordering};
 
 pub static PROGRESS_EPOCH: AtomicU64 = AtomicU64::new(0);
 pub static HANG: AtomicBool = AtomicBool::new(false);
+/// set by the main simulated thread when it is done: the next scheduling decision ends the execution
+pub static STOP_REQUEST: AtomicBool = AtomicBool::new(false);
+pub static DEADLOCK: AtomicBool = AtomicBool::new(false);
 pub static SCHED_HASH: AtomicU64 = AtomicU64::new(0);
 pub static CTX_SWITCHES: AtomicU64 = AtomicU64::new(0);
 pub static DECISIONS: AtomicU64 = AtomicU64::new(0);
@@ -92,6 +95,8 @@ impl LsimScheduler {
             }
         }
         HANG.store(false, Ordering::SeqCst);
+        STOP_REQUEST.store(false, Ordering::SeqCst);
+        DEADLOCK.store(false, Ordering::SeqCst);
         SCHED_HASH.store(0, Ordering::SeqCst);
         CTX_SWITCHES.store(0, Ordering::SeqCst);
         DECISIONS.store(0, Ordering::SeqCst);
@@ -125,6 +130,11 @@ impl Scheduler for LsimScheduler {
 
     fn next_task(&mut self, runnable: &[&Task], current: Option<TaskId>, is_yielding: bool) -> Option<TaskId> {
         DECISIONS.fetch_add(1, Ordering::Relaxed);
+        if STOP_REQUEST.load(Ordering::SeqCst) {
+            // from here on only destructors run (forced unwinding of unfinished coroutines)
+            locustdb_simrt::core::set_exec_over(true);
+            return None;
+        }
         let epoch = PROGRESS_EPOCH.load(Ordering::SeqCst);
         if epoch != self.seen_epoch {
             self.seen_epoch = epoch;
@@ -136,10 +146,18 @@ impl Scheduler for LsimScheduler {
         if has_timer {
             if ids.len() == 1 {
                 // nothing else can run: advance the clock
+                if locustdb_simrt::time::pending_timers() == 0 {
+                    // ... but there is nothing to wait for either: every thread is blocked for good
+                    HANG.store(true, Ordering::SeqCst);
+                    DEADLOCK.store(true, Ordering::SeqCst);
+                    locustdb_simrt::core::set_exec_over(true);
+                    return None;
+                }
                 self.idle_run += 1;
                 IDLE_FIRINGS.fetch_add(1, Ordering::Relaxed);
                 if self.idle_run > self.spec.idle_limit {
                     HANG.store(true, Ordering::SeqCst);
+                    locustdb_simrt::core::set_exec_over(true);
                     return None;
                 }
             } else if self.spec.timer_eager_permille > 0 && self.rng.below(1000) < self.spec.timer_eager_permille as u64 {
